@@ -21,6 +21,9 @@ PID = "C09"
 QUICK_T = (("T1", None), ("T2", 3), ("T3", 2), ("T7", 3))
 
 
+SOLVED_BEFORE = [False]
+
+
 def _model(E, templates):
     env.for_path(E)
     tid, w = E.pick("template", templates)
@@ -29,6 +32,10 @@ def _model(E, templates):
     obj = t["objectives"][E.choice("objective", len(t["objectives"]))]
     direction = E.pick("direction", ["max", "min"])
     ids = [r.id for r in m.reactions]
+    if SOLVED_BEFORE[0]:
+        # the solver holds status 'optimal' and a primal solution of the model as it was before the bounds below
+        m.objective = {m.reactions.get_by_id(r): c for r, c in obj.items()}
+        m.optimize()
     networks.symbolic_bounds(E, m, which=(ids if w is None else ids[:w]))
     E.note(template=tid, objective=obj, direction=direction)
     return m, obj, direction, ids
@@ -174,6 +181,16 @@ def c09_moma(E, templates=(("T1", None), ("T2", 2), ("T3", 2))):
         E.prove(E.eq(_sum_abs(sol.fluxes, ids, ref.fluxes), best), "distance-minimal")
 
 
+def c09_solved_before(E):
+    SOLVED_BEFORE[0] = True
+    try:
+        if E.flag("moma"):
+            return c09_moma(E, templates=(("T2", 2), ("T3", 2)))
+        return c09_pfba(E, templates=(("T2", 2), ("T3", 2)), fractions=(1, Fraction(1, 2)))
+    finally:
+        SOLVED_BEFORE[0] = False
+
+
 def c09_pfba_thorough(E):
     return c09_pfba(E, templates=(("T1", None), ("T2", None), ("T3", None), ("T4", 4), ("T7", None)),
                     fractions=(1, Fraction(9, 10), Fraction(1, 2), 0))
@@ -190,6 +207,9 @@ HARNESSES = [
     H("c09_moma", c09_moma, tiers=("quick",), quick=dict(max_paths=8000, time_budget=70),
       bounds="T1 all, T2 and T3 first 2 symbolic; reference: pFBA or FBA solution of the wild type (symbolic, from the "
              "stub) or default; one reaction (every choice, or none) knocked out after the reference was taken"),
+    H("c09_solved_before", c09_solved_before, quick=dict(max_paths=6000, time_budget=45), thorough=dict(max_paths=6000, time_budget=100),
+      bounds="pfba and linear moma on T2/T3 with 2 symbolic reactions when the model was optimised before its bounds were set "
+             "(solver still 'optimal' on the old problem)"),
     H("c09_pfba_thorough", c09_pfba_thorough, tiers=("thorough",), thorough=dict(max_paths=400000, time_budget=500),
       bounds="T1,T2,T3,T7 all symbolic, T4 first 4; fractions {1,9/10,1/2,0}"),
     H("c09_moma_thorough", c09_moma_thorough, tiers=("thorough",), thorough=dict(max_paths=200000, time_budget=500),
